@@ -397,6 +397,7 @@ func OracleMayRun(prop string, v *View) []Violation {
 			}
 		}
 	}
+	out = append(out, stoppedBeforeStart(prop, v, obs)...)
 	// the natural model agrees when the run was not cut short: a step that may not run never ran
 	// before the first step failure / termination (kept as a cross-check of the observed rule)
 	sort.Slice(out, func(a, b int) bool { return out[a].Msg < out[b].Msg })
@@ -418,6 +419,11 @@ func refKind(refText string) string {
 func OracleInputs(prop string, v *View) []Violation {
 	var out []Violation
 	prog := v.C.Program
+	// a stage input (or output) that the engine tried to evaluate before everything it refers to had
+	// been produced shows up as an evaluation failure the model does not predict
+	if c := v.C0; c != nil && c.Returned && c.Err != "" && strings.Contains(c.Err, "resolve expressions") && strings.Contains(c.Err, "not found") && len(v.Facts.RunError) == 0 && !c.Cancelled {
+		out = append(out, viol(prop, "evaluated-before-dependency-produced", "", "the engine evaluated expressions before what they refer to existed (the model finds no run-time fault): %s", c.Err))
+	}
 	for src, evs := range v.Starts {
 		p2, id := stepOfSrc(prog, src)
 		if p2 != prog {
@@ -816,4 +822,58 @@ func stalledShape(v *View) string {
 		return "; every held-up step goroutine is waiting to enter a stage-change notification"
 	}
 	return "; step goroutines held up in: " + strings.Join(keys(elsewhere), ",")
+}
+
+// stoppedBeforeStart is C04's third clause: a step whose stop condition fired before it could start
+// never executes. It is decided on simulated time and therefore only for runs in which time never
+// passed while a goroutine could still run (no voluntary time passing, no starvation): then
+// everything the stop source's completion triggers has happened before the clock moves on.
+func stoppedBeforeStart(prop string, v *View, obs *ref.Facts) []Violation {
+	if v.C.Policy.PTime != 0 || v.C.Policy.Kind == "starve" {
+		return nil
+	}
+	at := map[string]int64{} // "step.stage.output" -> simulated time of production
+	for _, e := range v.Events {
+		if e.Kind == world.EvExecEnd && !e.Probe {
+			_, id := stepOfSrc(v.C.Program, e.Src)
+			if o, _ := e.Data["output"].(string); o != "" {
+				at[id+".outputs."+o] = e.AtUS
+				if _, ok := at[id+".outputs"]; !ok {
+					at[id+".outputs"] = e.AtUS
+				}
+			}
+		}
+	}
+	var out []Violation
+	for src, evs := range v.Starts {
+		prog, id := stepOfSrc(v.C.Program, src)
+		st := prog.Step(id)
+		if prog != v.C.Program || st == nil || st.StopIf == nil || st.StopIf.K != "ref" || len(st.StopIf.Path) < 3 {
+			continue
+		}
+		key := st.StopIf.Path[1].(string) + "." + st.StopIf.Path[2].(string)
+		if len(st.StopIf.Path) > 3 {
+			key += "." + st.StopIf.Path[3].(string)
+		}
+		ts, ok := at[key]
+		if !ok {
+			continue
+		}
+		// when did the last thing the step needs in order to start become available?
+		tp := int64(-1)
+		for _, e := range []*ir.Expr{ir.Obj(st.In...), st.WaitFor, st.Enabled} {
+			ir.Walk(e, func(x *ir.Expr) {
+				if x.K != "ref" || len(x.Path) < 4 || x.Path[0] != "steps" {
+					return
+				}
+				if t, ok := at[x.Path[1].(string)+"."+x.Path[2].(string)+"."+x.Path[3].(string)]; ok && t > tp {
+					tp = t
+				}
+			})
+		}
+		if tp > ts && evs[0].AtUS >= tp {
+			out = append(out, viol(prop, "ran-although-stopped-before-start", "", "step %s executed plugin code at t=%dus although its stop condition (%s) had fired at t=%dus, before what it needed to start became available at t=%dus", id, evs[0].AtUS, ir.ExprText(st.StopIf), ts, tp))
+		}
+	}
+	return out
 }
